@@ -735,6 +735,31 @@ func (sc *Scope) trCall(x ECall) (Term, types.Type) {
 		}
 		_, vn, _, vs := env.mapHeaps(t)
 		return Select(sc.heap(vn, vs), m), t
+	case "seqof":
+		// seqof(s): the elements of slice s as a mathematical sequence (index -> element), in the current state
+		a, t := sc.Tr(x.Args[0])
+		sl, ok := t.Underlying().(*types.Slice)
+		if !ok || isStruct(sl.Elem()) {
+			sfail("seqof() needs a slice of non-struct elements")
+		}
+		hn, hs := env.elemHeap(sl.Elem())
+		es := env.SortOf(sl.Elem())
+		fn := "seqof_" + sanitize(string(es))
+		if !env.declared[fn] {
+			env.DeclFun(fn, []Sort{hs, SSlice}, ArraySort(SInt, es))
+			env.Axiom(fmt.Sprintf("(forall ((h %s) (s Slice) (k Int)) (! (= (select (%s h s) k) (select h (sidx s k))) :pattern ((select (%s h s) k))))", hs, fn, fn))
+		}
+		return App(ArraySort(SInt, es), fn, sc.heap(hn, hs), a), types.NewMap(tInt, sl.Elem())
+	case "age":
+		// age(x): allocation stamp of the object behind x (smaller = allocated earlier)
+		a, _ := sc.Tr(x.Args[0])
+		r := a
+		if a.Sort == SSlice {
+			r = SlArr(a)
+		} else if a.Sort == SIface {
+			r = IfVal(a)
+		}
+		return Base(r), tInt
 	case "lastselect":
 		// outcome of the most recent non-blocking select: 0 = received (cancelled), -1 = default
 		return sc.heap("sel!last", SInt), tInt
